@@ -226,6 +226,11 @@ class ProgGen:
             return f"int({r.choice(self.visible('float')).name})"
         if c == "neg":
             self.feat("unary-")
+            if vars_ and self.chance(0.35):
+                # signs stacked directly on a name: two minus signs are not a decrement
+                self.feat("double-unary-sign")
+                v = r.choice(vars_).name
+                return r.choice([f"(-(-{v}))", f"(- -{v})", f"(+(+{v}))", f"(-(+{v}))", f"(1 - -{v})", f"(-(-(-{v})))"])
             return f"(-{self.e_int(d + 1)})"
         if c == "call":
             return self.call_expr("int", d)
